@@ -17,7 +17,6 @@ import (
 	"github.com/ProtonMail/gluon/imap"
 
 	"verifharness/imapc"
-	"verifharness/srv"
 )
 
 // ---- db client capture ----
@@ -241,6 +240,16 @@ func readSnap(cl db.Client) (*dbSnap, error) {
 	if err != nil {
 		return nil, err
 	}
+	// rows waiting for the purge (marked deleted, remote id released, in no mailbox) are removed at an arbitrary
+	// later moment (end of some session) and cannot be addressed by any update: leave them out
+	var ms []*dbMsg
+	for _, m := range s.Ms {
+		if m.Deleted && strings.HasPrefix(m.RID, "DELETED-") && len(s.mailboxesOf(m.IID)) == 0 {
+			continue
+		}
+		ms = append(ms, m)
+	}
+	s.Ms = ms
 	s.sortAll()
 	return s, nil
 }
@@ -303,13 +312,9 @@ func okCmd(c *imapc.Client, line string) (imapc.Result, error) {
 	return r, nil
 }
 
-// freshView logs in on a new connection and reads every mailbox with EXAMINE.
-func freshView(s *srv.Server) (*wview, error) {
-	c, err := s.Login()
-	if err != nil {
-		return nil, err
-	}
-	defer c.Close()
+// freshView reads every mailbox with a new EXAMINE (= a new snapshot built from the database) on the viewing
+// session, which stays logged in (ending a session triggers the asynchronous purge of messages marked deleted).
+func freshView(c *imapc.Client) (*wview, error) {
 	v := &wview{Boxes: map[string]*mview{}}
 	r, err := okCmd(c, `LIST "" "*"`)
 	if err != nil {
@@ -379,7 +384,12 @@ func freshView(s *srv.Server) (*wview, error) {
 		sort.Slice(mv.Msgs, func(i, j int) bool { return mv.Msgs[i].UID < mv.Msgs[j].UID })
 		v.Boxes[name] = mv
 	}
-	c.Cmd("LOGOUT")
+	if len(names) > 0 {
+		// leave no mailbox selected: the viewing session must not be touched by later updates
+		if _, err := okCmd(c, "CLOSE"); err != nil {
+			return nil, err
+		}
+	}
 	return v, nil
 }
 
